@@ -406,7 +406,7 @@ func verifyFunction(P *Program, key string, opts *runOpts) *FnResult {
 	res.Errors = append(res.Errors, e.errors...)
 	if c != nil {
 		for _, a := range c.AssertsAt {
-			if !e.assertDone[a] {
+			if !e.assertDone[a] && a.Nth >= 0 { // "#*" (every matching statement) may match none
 				res.Errors = append(res.Errors, fmt.Sprintf("%s: assert_at anchor %q matches no statement", a.Clause.Src, a.Anchor))
 			}
 		}
